@@ -1,3 +1,4 @@
+import RsMatterVerif.Generated.Consts
 import RsMatterVerif.Model.Codec.Base38
 /-!
 # Model of the QR onboarding payload: `pairing/qr.rs` `QrPayload::emit_chars` / `as_str` and `QrPayload::parse`
@@ -14,14 +15,14 @@ open Codec
 /-- `QR_PREFIX = "MT:"` -/
 def PREFIX : List Nat := [77, 84, 58]
 
-def VERSION_BITS : Nat := 3
-def VID_BITS : Nat := 16
-def PID_BITS : Nat := 16
-def FLOW_BITS : Nat := 2
-def RENDEZVOUS_BITS : Nat := 8
-def DISC_BITS : Nat := 12
-def PASS_BITS : Nat := 27
-def PADDING_BITS : Nat := 4
+def VERSION_BITS : Nat := Consts.c17QrVersionBits
+def VID_BITS : Nat := Consts.c17QrVidBits
+def PID_BITS : Nat := Consts.c17QrPidBits
+def FLOW_BITS : Nat := Consts.c17QrFlowBits
+def RENDEZVOUS_BITS : Nat := Consts.c17QrRendezvousBits
+def DISC_BITS : Nat := Consts.c17QrDiscBits
+def PASS_BITS : Nat := Consts.c17QrPassBits
+def PADDING_BITS : Nat := Consts.c17QrPaddingBits
 def TOTAL_BITS : Nat :=
   VERSION_BITS + VID_BITS + PID_BITS + FLOW_BITS + RENDEZVOUS_BITS + DISC_BITS + PASS_BITS + PADDING_BITS
 /-- `TOTAL_PAYLOAD_DATA_SIZE_IN_BYTES` -/
